@@ -1,7 +1,7 @@
 (* C07 — writing preserves order, keeps unknown lines verbatim, and is a fixed point.
-   Statements only (copied from Proofs/WriterProofs.v and Proofs/EchoProofs.v by harness/mkprops.py).  Model:
+   Statements only (copied from Proofs/WriterProofs.v, Proofs/EchoProofs.v and Proofs/FmtProofs.v by harness/mkprops.py).  Model:
    Model/Writer.v (the item loop of write_shelx_file, _find_included_files as repaired), Model/Wrap.v, Model/Lex.v. *)
-From SX Require Import Base.Prelude Base.Str Model.Lex Model.Wrap Model.Writer Model.Fmt Proofs.WrapProofs Proofs.EchoProofs Proofs.WriterProofs.
+From SX Require Import Base.Prelude Base.Str Model.Lex Model.Wrap Model.Writer Model.Fmt Proofs.WrapProofs Proofs.EchoProofs Proofs.WriterProofs Proofs.FmtProofs.
 Local Open Scope nat_scope.
 
 Theorem C07_write_order del items : write_file del items =
@@ -40,6 +40,10 @@ Print Assumptions C07_passthrough_fixpoint.
 Theorem C07_scaled_denote k n : scaled k (denote k n) = n.
 Proof. exact (scaled_denote k n). Qed.
 Print Assumptions C07_scaled_denote.
+
+Theorem C07_u_fixed_point u : length u = 6%nat -> u_written (u_read (u_written u)) = u_written u.
+Proof. exact (u_fixed_point u). Qed.
+Print Assumptions C07_u_fixed_point.
 
 Theorem C07_expand_example :
   let fs := fun n : str => if name_eqb n (lit "a.txt") then Some [lit "C9 1 0 0 0"; lit "+b.txt"; lit "SADI C9 C1"]
